@@ -311,7 +311,8 @@ impl Scenario for TlsSim {
             out.violations.push(Violation::new("C12", rule, psig(kind), detail));
         };
         let ok = res.is_ok();
-        let looks_tls = first.len() >= 2 && first[0] == 0x16 && first[1] == 0x03;
+        // prefix-aware: with one-byte writes and an early reset the peer may have seen a single byte
+        let looks_tls = !first.is_empty() && first[0] == 0x16 && (first.len() < 2 || first[1] == 0x03);
         let looks_ascii = !first.is_empty() && first.iter().take(8).all(|b| b.is_ascii_graphic() || *b == b' ');
         // (a)/(e) what the peer sees first
         if use_tls {
